@@ -17,7 +17,7 @@ def _fractional_matrix_power(C, power, **kwargs):
     _, s, V = svd.fit_transform(C)
 
     # cut off small singular values
-    is_above_zero = s > np.finfo(s.dtype).eps
+    is_above_zero = s > np.finfo(s.dtype).eps * s.max()
     V = V[:, is_above_zero]
     s = s[is_above_zero]
 
